@@ -40,6 +40,7 @@ class Ctx(object):
                 pass
         self.scratch = tempfile.mkdtemp(prefix='avelverif_%s_' % prop, dir='/var/tmp')
         self.cfgs = configs.configs_for(tier)
+        self.only_cfgs = only_cfgs
         if only_cfgs:
             self.cfgs = [c for c in configs.thorough_configs() if c.name in only_cfgs]
         self.kf = findings.load()
